@@ -213,6 +213,11 @@ func validate(bundle *crl.Bundle, issuer *x509.Certificate) error {
 	if err := validateCRL(deltaCRL, issuer); err != nil {
 		return fmt.Errorf("failed to validate delta CRL: %w", err)
 	}
+	if deltaCRL.Number == nil || baseCRL.Number == nil {
+		// x509.ParseRevocationList leaves Number nil when the CRL number
+		// extension is absent
+		return errors.New("CRL number extension is required in both base CRL and delta CRL")
+	}
 	if deltaCRL.Number.Cmp(baseCRL.Number) <= 0 {
 		return fmt.Errorf("delta CRL number %d is not greater than the base CRL number %d", deltaCRL.Number, baseCRL.Number)
 	}
